@@ -275,7 +275,7 @@ func universe() []Val {
 	o := func(name string, mk func(v int) interface{}) Val { return Val{Name: name, Mk: mk, Own: true} }
 	add(o("Safe(str)", func(v int) interface{} { return redact.Safe("pub" + mEnd + "\nlic") }))
 	add(o("Safe(int)", func(v int) interface{} { return redact.Safe(-77) }))
-	add(o("Safe([]byte)", func(v int) interface{} { return redact.Safe([]byte("pb")) }))
+	add(o("Safe([]byte)", func(v int) interface{} { return redact.Safe(sharedPubBytes) }))
 	add(o("Safe(struct)", func(v int) interface{} { return redact.Safe(structT{1, "p", 2.5}) }))
 	add(o("Safe(Stringer)", func(v int) interface{} { return redact.Safe(strT{"pubstr"}) }))
 	add(o("Safe(err)", func(v int) interface{} { return redact.Safe(errT{"puberr"}) }))
@@ -308,7 +308,7 @@ func universe() []Val {
 	}))
 	add(o("*StringBuilder", func(v int) interface{} {
 		b := &redact.StringBuilder{}
-		b.Printf("n=%d %s", secInt[v], redact.Safe("ok"))
+		b.Printf("n=%s %s", secPlain[v], redact.Safe("ok"))
 		return b
 	}))
 	add(o("SafeMessager", func(v int) interface{} { return safeMsgT{secStr[v]} }))
@@ -338,6 +338,8 @@ func universe() []Val {
 	}))
 	return u
 }
+
+var sharedPubBytes = []byte("pb") // declared safe by the caller: shared by both instantiations (its address is public too)
 
 func inf(s int) float64 {
 	x := 1e308
